@@ -1,6 +1,7 @@
 package main
 
 import (
+	"sync/atomic"
 	"bytes"
 	"fmt"
 	"os"
@@ -60,17 +61,32 @@ func runC19Cold(_ *out, _ bool, _ *rng, args []string) map[string]interface{} {
 		_ = stun.MessageType{Method: 0x123, Class: 2}.Value()
 	case "concurrent-read-first":
 		var wg sync.WaitGroup
+		start := make(chan struct{})
+		var wrong atomic.Int64
 		for w := 0; w < 4*runtime.GOMAXPROCS(0); w++ {
 			wg.Add(1)
 			go func(w int) {
 				defer wg.Done()
+				<-start
+				// the very first decodes of this process, from all goroutines at the same instant, checked on the spot
+				for v := 1 + w; v < 65536; v += 257 {
+					var t stun.MessageType
+					t.ReadValue(uint16(v))
+					if int(t.Method) != v&0xf|(v>>1)&0x70|(v>>2)&0xf80 || int(t.Class) != (v>>4)&1|(v>>7)&2 {
+						wrong.Add(1)
+					}
+				}
 				for v := 0; v < 65536; v += 17 {
 					var t stun.MessageType
 					t.ReadValue(uint16(v + w))
 				}
 			}(w)
 		}
+		close(start)
 		wg.Wait()
+		if n := wrong.Load(); n > 0 {
+			fmt.Println("wrong first decodes:", n)
+		}
 	}
 	fmt.Println("tables", c19Digest())
 	os.Exit(0)
@@ -172,7 +188,8 @@ func runC19(o *out, thorough bool, r *rng, _ []string) map[string]interface{} {
 	// fresh processes whose FIRST use of the type codec is a ReadValue, a Decode, a Value, or ReadValue from many
 	// goroutines at once: the tables they then compute are the ones computed here
 	want := fmt.Sprint("tables ", c19Digest())
-	for _, first := range []string{"read-first", "decode-first", "value-first", "concurrent-read-first"} {
+	for _, first := range []string{"read-first", "decode-first", "value-first", "concurrent-read-first", "concurrent-read-first", "concurrent-read-first",
+		"concurrent-read-first", "concurrent-read-first", "concurrent-read-first"} {
 		outp, err := exec.Command(os.Args[0], "C19cold", "quick", "0", filepath.Join(o.dir, "c19cold"), first).CombinedOutput()
 		if got := strings.TrimSpace(string(outp)); err != nil || got != want {
 			if len(got) > 300 {
